@@ -32,6 +32,10 @@ CHECKS = {
             "VCs from the AST of uniform/norm_cdf/sbvn_cdf/gaussian/gauss_legendre_quad (full functional contracts) and of bvn_cdf (control skeleton: standardisation, regime test, three guards, sign flip, final combinations), z3/cvc5; the quadrature accuracy is a bounded numeric comparison against SciPy and an mpmath integral",
             "Mixed. Proved for all inputs: box CDF, product form for zero covariance, dispatch, Gauss-Legendre tables = leggauss nodes/weights, thresholds 0.3/0.75/0.925, Genz's guards and final combinations on every path of the real bvn_cdf. Bounded: 1e-7 agreement with two independent reference CDFs on 1.5k (quick) / 60k (thorough) points across all branch thresholds, range, monotonicity, rectangle mass, tails.",
             "erfc/exp/sin/arcsin/sqrt uninterpreted; arithmetic definedness inside bvn_cdf assumed; accuracy only sampled; generator, models, contracts trusted"),
+    "C12": ("proof",
+            "class invariant as contracts on the real constructor, the three setters and fit (modular: fit is checked against the setters' contracts), VCs from the AST, nonlinear int/real obligations discharged by z3 (nlsat after Ackermann reduction) / cvc5; float history sweep as bounded stand-in",
+            "WF (square pixels of the configured size, resolution*pixel = extent, meshes, coverage of the request with excess < one pixel) is proved to be established by the constructor and preserved by pixel_size=, birth_range=, pers_range= and fit for all real arguments; induction over the history gives every finite sequence. Floating-point truncation effects are covered only by the bounded sweep of histories.",
+            "real arithmetic for floats (the quotients 0.3/0.1 etc. are exercised by the float sweep only); np.linspace contract D14; induction over histories is a meta-argument; generator, models, contracts trusted"),
 }
 
 NOT_YET = "check not built yet in this session (planned per DESIGN.md section 5)"
